@@ -288,7 +288,7 @@ def revert_mutants(out_root, index):
                       # marked set (1 of 60000 thorough runs): a quick run
                       # may or may not meet it
                       "expect": "clean" if d.get("tag") == "F5a"
-                      else "rare" if d.get("tag") in ("F22",)
+                      else "rare" if d.get("tag") in ()
                       else "violation", "note": d["what"]})
 
 
